@@ -279,6 +279,10 @@ impl FailureDetector {
     pub(crate) fn verif_dead_nodes(&self) -> &HashMap<ChitchatId, Instant> {
         &self.dead_nodes
     }
+
+    pub(crate) fn verif_window_ids(&self) -> Vec<ChitchatId> {
+        self.node_samples.keys().cloned().collect()
+    }
 }
 
 /// An array that retains a fixed number of streaming values.
